@@ -19,6 +19,7 @@ package shmipc
 // the cutting) to VERIF_OUT.
 
 import (
+	"context"
 	"encoding/binary"
 	"encoding/hex"
 	"fmt"
@@ -256,7 +257,9 @@ type c13Subject struct {
 
 func c13NewManager() *SessionManager {
 	conf := c13Conf("mgr")
-	return &SessionManager{config: &SessionManagerConfig{Config: conf, Network: "unix",
+	// a live (not closed) manager: the hot restart handler ignores events once the manager's context is cancelled
+	ctx, cancel := context.WithCancel(context.Background())
+	return &SessionManager{ctx: ctx, cancelFunc: cancel, config: &SessionManagerConfig{Config: conf, Network: "unix",
 		Address: "/nonexistent_verif_c13/none.sock"}}
 }
 
